@@ -193,9 +193,11 @@ class World:
         """What run_loop does before entering the loop (without real watchers)."""
         self.master = None
         self.obs_down = {}
+        self.loaded_ok = False
         m = self._new_master()
         m.load_model()
         self.loaded = self.project(m)
+        self.loaded_ok = True
         self.loaded_sched = project_sched(self, m)
         self.placement = None
         m.init_schedule()
@@ -579,7 +581,10 @@ def replay(scn, history):
                     line['placement'] = [[w.aname(n), b or '', rels(eb), a or '', rels(ea)]
                                          for n, b, eb, a, ea in w.placement]
             if ev in ('Restart', 'CrashRestart'):
-                line['loaded'] = w.loaded if 'exc' not in line else dict(alive=False, servers={}, apps={}, groups={})
+                # what load_model() rebuilt is judged (C11) also when the start-up
+                # fails later on (init_schedule / integrity check)
+                line['loaded'] = (w.loaded if ('exc' not in line or getattr(w, 'loaded_ok', False))
+                                  else dict(alive=False, servers={}, apps={}, groups={}))
                 line['prestore'] = pre_store
                 if 'exc' not in line and w.master is not None and w.init_placement is not None:
                     # the start-up cycle: pre = the model as loaded, post = after init_schedule
